@@ -180,15 +180,27 @@ fn main() {
     }
 
     let mut r0 = 0usize;
+    let mut post: u64 = 0;
     let mut progs: Vec<Vec<Op>> = vec![];
-    let emit = |fs: &Arc<Fs>, r0: usize, progs: &Vec<Vec<Op>>, out: &(Vec<usize>, Vec<u32>, Vec<Vec<usize>>, Vec<Vec<i64>>, Vec<u64>)| {
+    let emit = |fs: &Arc<Fs>, r0: usize, post: u64, progs: &Vec<Vec<Op>>, out: &(Vec<usize>, Vec<u32>, Vec<Vec<usize>>, Vec<Vec<i64>>, Vec<u64>)| {
         let ctx = Context { uid: 0, gid: 0, pid: 1 };
         let rc = fs.verif_refcount(ino).map(|x| x as i64).unwrap_or(-1);
         let ga = fs.getattr(&ctx, ino, None).err().map(|e| e.raw_os_error().unwrap_or(-1)).unwrap_or(0);
         let sz = fs.verif_table_sizes();
+        // post-run probe: the client forgets `post` of the references it still holds; the number
+        // must stay usable if it holds more than that
+        let (rc2, ga2) = if post > 0 {
+            fs.forget(&ctx, ino, post);
+            (
+                fs.verif_refcount(ino).map(|x| x as i64).unwrap_or(-1),
+                fs.getattr(&ctx, ino, None).err().map(|e| e.raw_os_error().unwrap_or(-1)).unwrap_or(0),
+            )
+        } else {
+            (rc, ga)
+        };
         println!(
-            "{{\"r0\":{},\"progs\":{:?},\"ino\":{},\"sched\":{:?},\"trace\":{:?},\"results\":{:?},\"dones\":{:?},\"rc\":{},\"getattr\":{},\"ninodes\":{}}}",
-            r0,
+            "{{\"r0\":{},\"post\":{},\"rc2\":{},\"getattr2\":{},\"progs\":{:?},\"ino\":{},\"sched\":{:?},\"trace\":{:?},\"results\":{:?},\"dones\":{:?},\"rc\":{},\"getattr\":{},\"ninodes\":{}}}",
+            r0, post, rc2, ga2,
             progs.iter().map(|p| p.iter().map(|o| match o { Op::L => "L".to_string(), Op::F(c) => format!("F{}", c) }).collect::<Vec<_>>()).collect::<Vec<_>>(),
             ino, out.0, out.1, out.3, out.4, rc, ga, sz.0
         );
@@ -201,8 +213,10 @@ fn main() {
         match w[0] {
             "r0" => {
                 r0 = w[1].parse().unwrap();
+                post = 0;
                 progs.clear();
             }
+            "post" => post = w[1].parse().unwrap(),
             "thread" => progs.push(
                 w[1..]
                     .iter()
@@ -212,7 +226,7 @@ fn main() {
             "sched" => {
                 let prefix: Vec<usize> = w[1..].iter().map(|x| x.parse().unwrap()).collect();
                 let out = run_one(&fs, &ctl, ino, &names, r0, &progs, &prefix);
-                emit(&fs, r0, &progs, &out);
+                emit(&fs, r0, post, &progs, &out);
             }
             "dfs" => {
                 let max: usize = w[1].parse().unwrap();
@@ -220,7 +234,7 @@ fn main() {
                 let mut count = 0;
                 loop {
                     let out = run_one(&fs, &ctl, ino, &names, r0, &progs, &prefix);
-                    emit(&fs, r0, &progs, &out);
+                    emit(&fs, r0, post, &progs, &out);
                     count += 1;
                     if count >= max {
                         println!("{{\"dfs_truncated\":true}}");
